@@ -82,8 +82,12 @@ def warmup():
     class IO:
         def progress(self, o):
             pass
+    found = []
     for i in range(5):
-        run_job({'i': i, 'seed': 12345}, IO())
+        found.extend(run_job({'i': i, 'seed': 12345}, IO()).get('violations') or [])  # what a warm-up history finds counts
+        if found:
+            break
+    return found
 
 
 class Entry:
